@@ -462,6 +462,7 @@ pub fn run(ctx: &Ctx) -> ! {
     cfg2.wide_args = true;
     cfg2.args_cap_per_var = 3;
     cfg2.max_arg_maps = ctx.tier.pick(4, 9);
+    cfg2.stream_share = 1.0;
     let s2 = if ctx.elapsed() < ctx.budget_s() { Some(corpus::drive(ctx, &uni, &cfg2, &|_| {}, &per_case, &|_, _| {})) } else { None };
 
     let mut c = cov();
